@@ -292,6 +292,22 @@ def install(extra=()):
                 setattr(m, attr, repl)
 
 
+def convert_declared(model):
+    """partials declared with a real scipy.sparse value (e.g. AddSubtractComp: sf * sp.eye(n, format='csc')) are replaced by
+    the stand-in of the same format, so that they can be multiplied with symbolic vectors; call between setup() and final_setup()"""
+    from openmdao.core.component import Component
+    n = 0
+    for s in model.system_iter(include_self=True, recurse=True):
+        if isinstance(s, Component):
+            for meta in s._subjacs_info.values():
+                v = meta.get('val')
+                if sp.issparse(v):
+                    cls = {'coo': coo_matrix, 'csc': csc_matrix, 'csr': csr_matrix}.get(v.format)
+                    meta['val'] = cls(v) if cls else coo_matrix(v.tocoo())
+                    n += 1
+    return n
+
+
 def selftest():
     rng = np.random.default_rng(3)
     errs = []
